@@ -1,3 +1,138 @@
 import Srctools.Wire
-/-! stub driver (echo) — replaced when the property's model exists. -/
-def main : IO Unit := Wire.main fun j => pure j
+import Srctools.Model.C20
+import Srctools.Gen.Tok
+import Srctools.Gen.C20
+/-! Driver for the C20 models. Byte strings travel as hex strings, text as code-point arrays,
+big integers as decimal strings.
+  {"op":"pad","s":hex,"n":N}            → {"r":hex|null}
+  {"op":"strip","s":hex}                → {"r":hex|null}
+  {"op":"cmd_write","seqs":[[hex,[cmd…]]…]} → {"r":hex|null}
+        cmd = {"exe":["str",hex]|["special",N],"args":hex,"enabled":b,"ensure":hex|null,"upw":b,"nowait":b}
+  {"op":"cmd_parse","b":hex}            → {"r":null|[[hex,[cmd…]]…]}
+  {"op":"img_build","version":N,"entries":[{"crc","dur","last","sounds":[hex],"strs":[hex],"raw":hex,"comp":hex}…]} → {"r":hex}
+  {"op":"img_parse","b":hex}            → {"r":null|[version,[[crc,dur,last,[hex…],hex]…]]}
+  {"op":"bsearch","keys":[N…],"k":N}    → {"r":null|index}
+  {"op":"round","num":"…","den":"…"}    → {"r":"…"}
+  {"op":"encq","hi":N,"num":"…","den":"…"} → {"r":N}
+  {"op":"sorted_set","l":[hex…]}        → {"r":[hex…]}
+  {"op":"snd_quote","s":[cp…]}          → {"r":[cp…]}
+  {"op":"vmt_quote","s":[cp…]}          → {"r":[cp…]}
+-/
+open Lean C20
+
+def hexDigit (c : Char) : Option Nat :=
+  if '0' ≤ c ∧ c ≤ '9' then some (c.toNat - 48)
+  else if 'a' ≤ c ∧ c ≤ 'f' then some (c.toNat - 87)
+  else if 'A' ≤ c ∧ c ≤ 'F' then some (c.toNat - 55)
+  else none
+
+def unhexAux : List Char → List UInt8 → Except String (List UInt8)
+  | [], acc => pure acc.reverse
+  | [_], _ => throw "odd hex length"
+  | a :: b :: rest, acc =>
+    match hexDigit a, hexDigit b with
+    | some x, some y => unhexAux rest (UInt8.ofNat (16 * x + y) :: acc)
+    | _, _ => throw "bad hex digit"
+
+def unhex (j : Json) : Except String Bytes := do
+  let s ← j.getStr?
+  unhexAux s.toList []
+
+def hexChar (n : Nat) : Char := if n < 10 then Char.ofNat (48 + n) else Char.ofNat (87 + n)
+
+def hex (b : Bytes) : Json :=
+  Json.str (String.ofList (b.flatMap fun x => [hexChar (x.toNat / 16), hexChar (x.toNat % 16)]))
+
+def hexOpt : Option Bytes → Json
+  | some b => hex b
+  | none => Json.null
+
+def cmdOf (j : Json) : Except String Cmd := do
+  let e ← j.getObjVal? "exe"
+  let ea ← e.getArr?
+  let kind ← (ea[0]!).getStr?
+  let exe ← if kind == "str" then (unhex ea[1]!).map Exe.str else (ea[1]!).getNat? |>.map Exe.special
+  let ens ← j.getObjVal? "ensure"
+  let ensure ← if ens.isNull then pure none else (unhex ens).map some
+  pure { exe, args := ← unhex (← j.getObjVal? "args"), enabled := ← j.getObjValAs? Bool "enabled",
+         ensure, useProcWin := ← j.getObjValAs? Bool "upw", noWait := ← j.getObjValAs? Bool "nowait" }
+
+def cmdJson (c : Cmd) : Json :=
+  Json.mkObj [
+    ("exe", match c.exe with
+      | .str s => Json.arr #[Json.str "str", hex s]
+      | .special k => Json.arr #[Json.str "special", Json.num (JsonNumber.fromNat k)]),
+    ("args", hex c.args), ("enabled", Json.bool c.enabled), ("ensure", hexOpt c.ensure),
+    ("upw", Json.bool c.useProcWin), ("nowait", Json.bool c.noWait)]
+
+def fileOf (j : Json) : Except String CmdFile := do
+  let a ← j.getArr?
+  a.toList.mapM fun p => do
+    let q ← p.getArr?
+    let cmds ← (← (q[1]!).getArr?).toList.mapM cmdOf
+    pure (← unhex q[0]!, cmds)
+
+def fileJson (f : CmdFile) : Json :=
+  Json.arr (f.map fun (n, cs) => Json.arr #[hex n, Json.arr (cs.map cmdJson).toArray]).toArray
+
+def hexList (j : Json) : Except String (List Bytes) := do
+  (← j.getArr?).toList.mapM unhex
+
+def entryOf (j : Json) : Except String Entry := do
+  pure { crc := ← j.getObjValAs? Nat "crc", durMs := ← j.getObjValAs? Nat "dur",
+         lastMs := ← j.getObjValAs? Nat "last", sounds := ← hexList (← j.getObjVal? "sounds"),
+         strs := ← hexList (← j.getObjVal? "strs"), raw := ← unhex (← j.getObjVal? "raw"),
+         comp := ← unhex (← j.getObjVal? "comp") }
+
+def nat (n : Nat) : Json := Json.num (JsonNumber.fromNat n)
+
+def intOfStr (j : Json) : Except String Int := do
+  let s ← j.getStr?
+  match s.toInt? with
+  | some i => pure i
+  | none => throw s!"bad integer {s}"
+
+def handle (j : Json) : Except String Json := do
+  let op ← j.getObjValAs? String "op"
+  let r (x : Json) := Json.mkObj [("r", x)]
+  match op with
+  | "pad" => pure (r (hexOpt (pad (← unhex (← j.getObjVal? "s")) (← j.getObjValAs? Nat "n"))))
+  | "strip" => pure (r (hexOpt (strip (← unhex (← j.getObjVal? "s")))))
+  | "cmd_write" =>
+    pure (r (hexOpt (write Gen.C20.cmdTables (← fileOf (← j.getObjVal? "seqs")))))
+  | "cmd_parse" =>
+    pure (r (match parse Gen.C20.cmdTables (← unhex (← j.getObjVal? "b")) with
+      | some f => fileJson f
+      | none => Json.null))
+  | "img_build" =>
+    let es ← (← (← j.getObjVal? "entries").getArr?).toList.mapM entryOf
+    pure (r (hex (buildImage (← j.getObjValAs? Nat "version") es)))
+  | "img_parse" =>
+    pure (r (match parseImage (← unhex (← j.getObjVal? "b")) with
+      | none => Json.null
+      | some (v, es) => Json.arr #[nat v, Json.arr (es.map fun e =>
+          Json.arr #[nat e.crc, nat e.durMs, nat e.lastMs, Json.arr (e.sounds.map hex).toArray,
+                     hex e.data]).toArray]))
+  | "bsearch" =>
+    let keys ← Wire.natList (← j.getObjVal? "keys")
+    pure (r (match bsearch keys (← j.getObjValAs? Nat "k") with
+      | some i => nat i
+      | none => Json.null))
+  | "round" =>
+    let num ← intOfStr (← j.getObjVal? "num")
+    let den ← intOfStr (← j.getObjVal? "den")
+    pure (r (Json.str (toString (roundHE num den.toNat))))
+  | "encq" =>
+    let num ← intOfStr (← j.getObjVal? "num")
+    let den ← intOfStr (← j.getObjVal? "den")
+    pure (r (nat (encQ (← j.getObjValAs? Nat "hi") num den.toNat)))
+  | "sorted_set" =>
+    pure (r (Json.arr ((sortedSet (← hexList (← j.getObjVal? "l"))).map hex).toArray))
+  | "snd_quote" =>
+    pure (r (Wire.codesOfStr (sndQuote Gen.Tok.tables (← Wire.strOfCodes (← j.getObjVal? "s")))))
+  | "vmt_quote" =>
+    pure (r (Wire.codesOfStr (vmtQuote Gen.Tok.tables Gen.C20.vmtLead
+      (← Wire.strOfCodes (← j.getObjVal? "s")))))
+  | _ => throw s!"unknown op {op}"
+
+def main : IO Unit := Wire.main handle
